@@ -225,6 +225,8 @@ def run_property(ctx, pid):
         "interface per message (open findings D20, D22: the harness generates these calls, they are reported as known findings, *_refuted witnesses in Properties)",
         "an interface removed from its node (Node.RemoveInterface) is a dead object and is not passed to later calls",
         "NewNode is not called with a negative interface count (makeslice panics; a constructor, not a mutating call)",
+        "an enum referenced by two signals of one layout (one payload or one multiplexer) does not grow: open finding D36 of the C01/C07 stream (each signal is verified alone, "
+        "pushes in map order); such calls are not generated here, the C01/C07 checks exercise the zone (a replayed history that contains one is signed +two-signals-of-the-enum-in-one-layout)",
         "refusals decided by payload geometry (SignalSizeError / StartBitError / ValueIndexError) are taken from the implementation as an oracle bit; they are the subject of C01/C07",
     ]
     if ctx.tier == "thorough":
